@@ -44,7 +44,7 @@ PROPS["C01"] = {
 }
 
 PROPS["C02"] = {
-    "legs": [rapid("bound", "pstree", "TestC02Bound", 4, 400, 16, 5000),
+    "legs": [rapid("bound", "pstree", "TestC02Bound", 8, 200, 16, 5000),
              plain("newheight", "pstree", "TestC02NewHeights")],
     "rule": "leg bound: histories as in C01 plus an adaptive adversary op that inserts a fresh key directly beneath a "
             "deepest leaf (located by a cursor walk); beta in [0,999]; trees up to 2000 nodes; after EVERY single "
